@@ -208,6 +208,105 @@ def rule_insufficiency(ctx: Ctx) -> RuleResult:
     return rr
 
 
+def rule_scan_exhaustion(ctx: Ctx) -> RuleResult:
+    """A reader that scans the input with `for k in keys[...]` and runs off its end has seen a
+    *prefix* of a report: it must ask for more input (under more_available) before giving up."""
+    p = ctx.p
+    rr = RuleResult("PAIR", "C05.3b", "when a reader's scanning loop exhausts the input, every path to a return passes `if ... more_available: raise MoreInputRequired()`", floor=3)
+    trie = p.cls("urwid.display.escape.KeyqueueTrie")
+    for r in READERS:
+        fi = trie.methods.get(r)
+        if fi is None:
+            continue
+        cfg = cfg_of(fi)
+        inp = fi.params[1] if len(fi.params) > 1 else "keys"
+
+        def is_guard(n):
+            if n.kind != "test" or not any(isinstance(x, ast.Name) and x.id == "more_available" for x in ast.walk(n.ast)):
+                return False
+            return any(lab == "T" and t.kind == "raisestmt" and "MoreInputRequired" in ast.unparse(t.ast) for t, lab in n.succ)
+
+        guards = [n for n in cfg.nodes if is_guard(n)]
+        for h in cfg.nodes:
+            if h.kind != "for":
+                continue
+            it = h.ast.iter
+            base = it.value if isinstance(it, ast.Subscript) else it
+            if not (isinstance(base, ast.Name) and base.id == inp):
+                continue
+            ident = f"{short(fi)}:{norm(h.stmt, 60)}"
+            # boolean flags assigned inside the loop only right before leaving it (the head is not reachable
+            # from the assignment) still hold their value from before the loop when the loop is exhausted
+            env = {}
+            body = cfg.reachable_from_edges([(h, "T")], avoid=[h])
+            for n in cfg.nodes:
+                a = n.ast
+                if isinstance(a, ast.Assign) and len(a.targets) == 1 and isinstance(a.targets[0], ast.Name) and isinstance(a.value, ast.Constant) and isinstance(a.value.value, bool):
+                    nm = a.targets[0].id
+                    if n in body:
+                        if h in cfg.reachable([n]):
+                            env[nm] = None  # may have run in an earlier iteration
+                    elif h in cfg.reachable([n]) and env.get(nm, 0) is not None:
+                        env[nm] = a.value.value if nm not in env else (env[nm] if env[nm] == a.value.value else None)
+            env = {k: v for k, v in env.items() if v is not None}
+
+            # `for k in keys[i:]` with `i += 1` in the body: on exhaustion i == len(keys), so `not keys[i:]` holds
+            counters = set()
+            if isinstance(it, ast.Subscript) and isinstance(it.slice, ast.Slice) and isinstance(it.slice.lower, ast.Name) and it.slice.upper is None:
+                c = it.slice.lower.id
+                if any(isinstance(n.ast, ast.AugAssign) and isinstance(n.ast.target, ast.Name) and n.ast.target.id == c and isinstance(n.ast.op, ast.Add) and isinstance(n.ast.value, ast.Constant) and n.ast.value.value == 1 for n in body):
+                    counters.add(c)
+
+            def rest_empty(t):
+                """`not keys[c:]` for an exhausted counter c"""
+                if isinstance(t, ast.UnaryOp) and isinstance(t.op, ast.Not):
+                    o = t.operand
+                    return isinstance(o, ast.Subscript) and isinstance(o.value, ast.Name) and o.value.id == inp and isinstance(o.slice, ast.Slice) and isinstance(o.slice.lower, ast.Name) and o.slice.lower.id in counters and o.slice.upper is None
+                return False
+
+            def decided(n):
+                t = n.ast
+                if rest_empty(t):
+                    return True
+                if isinstance(t, ast.BoolOp) and isinstance(t.op, ast.And) and any(rest_empty(v) for v in t.values) and len(t.values) == 2:
+                    return None
+                if isinstance(t, ast.Name) and t.id in env:
+                    return env[t.id]
+                if isinstance(t, ast.UnaryOp) and isinstance(t.op, ast.Not) and isinstance(t.operand, ast.Name) and t.operand.id in env:
+                    return not env[t.operand.id]
+                return None
+
+            reach = set()
+            work = [t for t, lab in h.succ if lab == "F" and t not in guards]
+            reach.update(work)
+            while work:
+                n = work.pop()
+                if isinstance(n.ast, ast.Assign) and any(isinstance(t, ast.Name) and t.id in env for t in n.ast.targets):
+                    env.pop(n.ast.targets[0].id, None)
+                if isinstance(n.ast, (ast.Assign, ast.AugAssign)) and any(isinstance(x, ast.Name) and isinstance(x.ctx, ast.Store) and x.id in counters for x in ast.walk(n.ast)):
+                    counters.clear()
+                d = decided(n) if n.kind == "test" else None
+                for t, lab in n.succ:
+                    if d is not None and lab in ("T", "F") and (lab == "T") != d:
+                        continue
+                    if t in guards or t in reach:
+                        continue
+                    reach.add(t)
+                    work.append(t)
+            bad = [x for x in reach if x.kind == "return"] + ([cfg.exit] if cfg.exit in reach and not any(x.kind == "return" for x in reach) else [])
+            rr.inst(ident, True, {"function": short(fi), "loop": norm(h.stmt, 60), "guards": len(guards), "guarded": not bad} if len(rr.samples) < 5 else None)
+            if bad:
+                rr.add(
+                    finding(
+                        "PAIR", fi, h.stmt,
+                        f"when `{norm(h.stmt, 50)}` runs off the end of the input, {fi.name}() reaches `{norm(bad[0].stmt, 50) if bad[0].stmt is not None else 'the end'}` without "
+                        "`if more_available: raise MoreInputRequired()`: a report cut at this point is decoded as garbage instead of being held back for the rest",
+                        construct=f"scan loop `{norm(h.stmt, 60)}` exhausts without MoreInputRequired",
+                    )
+                )
+    return rr
+
+
 def rule_carry_over(ctx: Ctx) -> RuleResult:
     p = ctx.p
     rr = RuleResult("ORDER", "C05.4", "incomplete input is carried to the next read, flushed by the timeout closure, and a pending timeout is cancelled before every parse", floor=7)
@@ -378,6 +477,7 @@ def run(ctx: Ctx):
         ),
         rule_consumption(ctx),
         rule_insufficiency(ctx),
+        rule_scan_exhaustion(ctx),
         rule_carry_over(ctx),
         rule_trie_table(ctx),
     ]
